@@ -650,6 +650,7 @@ def run_c19_tagging(res, tier, seed):
         return out
 
     nmod = 0
+    tie_reqs, tie_impl = [], []
     for ws, plan, ans in zip(wss, plans, answers):
         k = 0
         for (fi, rs) in plan:
@@ -659,6 +660,7 @@ def run_c19_tagging(res, tier, seed):
             if len(tagged) != len(full) or full != sorted(full):
                 res.add_violation("C19/tagging/unsorted-or-duplicate", f"highlights of file {fi} are not strictly increasing: {full[:8]}", p_ide.replay_ws(ws, ws.occs[0], ans[k - 1][:300], None))
             must, may = {}, set()
+            ctx = {}            # key -> (parent, Definition variant, function-typed local) for the model of token_tag
             for o in ws.occs:
                 if o.file != fi:
                     continue
@@ -673,12 +675,12 @@ def run_c19_tagging(res, tier, seed):
                     if e[1].module != fi and p_ide.clash_known(ws, e[1]):
                         may.add(key); continue      # known value/type import clash (C05)
                     if e[1].kind == "fn":
-                        must[key] = "Function"
+                        must[key] = "Function"; ctx[key] = ("nameref", "Function", 0)
                     elif e[1].kind == "variant":
-                        must[key] = "Constructor"
+                        must[key] = "Constructor"; ctx[key] = ("nameref", "Variant", 0)
                 elif o.ns == "value" and e and e[0] == "L":
                     if e[1].is_fn:
-                        must[key] = "Function"
+                        must[key] = "Function"; ctx[key] = ("nameref", "Local", 1)
                     else:
                         may.add(key)        # a local may be function-typed (parameter, alias of a function)
                 elif o.ns == "module":
@@ -688,9 +690,14 @@ def run_c19_tagging(res, tier, seed):
                     may.add(key)
             for d in ws.modules[fi].decls:
                 if d.kind == "variant":
-                    must[(d.offset, d.offset + len(d.name))] = "Constructor"
+                    must[(d.offset, d.offset + len(d.name))] = "Constructor"; ctx[(d.offset, d.offset + len(d.name))] = ("variantname", "-", 0)
                 elif d.kind == "fn":
                     may.add((d.offset, d.offset + len(d.name)))
+            # the model of token_tag (table regenerated from semantic_highlighting.rs, theorems tag_function_iff /
+            # tag_constructor_iff) must predict the tag the implementation gives every identifier whose context is known
+            for key, (par, kind, isfn) in ctx.items():
+                tie_reqs.append(f"hltag\t{par}\t{kind}\t{isfn}")
+                tie_impl.append((f"file {fi} token {key}", tagged.get(key) or "none"))
             bad = None
             for key, t in must.items():
                 if tagged.get(key) != t:
@@ -712,6 +719,12 @@ def run_c19_tagging(res, tier, seed):
                     res.add_violation("C19/tagging/range-request", f"highlights for the range {a}-{b} are {got[:6]}, the full answer restricted to it is {want[:6]}",
                                       {"files": [{"path": p, "text": t} for p, t in ws.files], "query": f"semrange\t{fi}\t{a}\t{b}", "impl": ans[k - 1][:300]})
     res.cov["tagging_workspaces"] = n_ws
+    if tie_reqs:
+        mo, _ = common.run_lines(common.DRIVER_BIN, tie_reqs)
+        res.cov["tagging_model_tie"] = len(tie_reqs)
+        for rq, (where, impl), m in zip(tie_reqs, tie_impl, mo):
+            if impl != m:
+                res.disagreements.append((rq + " @ " + where, impl, m))
     # module identifiers are never tagged (HlTag::Module is never produced)
     if nmod:
         any_mod = any(":Module" in a for ans in answers for a in ans)
@@ -720,7 +733,7 @@ def run_c19_tagging(res, tier, seed):
                               {"note": "HlTag::Module is never produced by ide::ide::semantic_highlighting::highlight"})
 
 
-PROOF_MODULES = {"C13": ["Glas.Props.C13"], "C14": ["Glas.Props.C14"], "C19": ["Glas.Props.C19"]}
+PROOF_MODULES = {"C13": ["Glas.Props.C13"], "C14": ["Glas.Props.C14"], "C19": ["Glas.Props.C19", "Glas.Props.C19Tags"]}
 
 
 def run(prop, res, tier, seed):
